@@ -37,6 +37,7 @@ type Analysis struct {
 	RegistryStartup bool     // no non-init function of the module (outside tests) mutates the checksum registry
 	RegistryMutCall []string // offending call sites otherwise
 	mu              sync.Mutex
+	errGlobals      map[*ssa.Global]bool
 }
 
 func pathKind(p *Path) string {
@@ -80,6 +81,7 @@ func condString(cs []Cond) string {
 func (a *Analysis) engineFor(root *ssa.Function) *Engine {
 	e := NewEngine(a.P)
 	e.IsCodecMethod = func(f *ssa.Function) bool { return f != root && a.U.IsCodecMethod(f) }
+	e.NonNilGlobals = a.nonNilErrGlobals()
 	return e
 }
 
@@ -357,4 +359,52 @@ func (a *Analysis) decLayout(ct *CodecType, p *Path) *PathLayout {
 		}
 	}
 	return &PathLayout{Path: p, Layout: &Layout{Fields: fs}, Conds: condString(p.Conds)}
+}
+
+// nonNilErrGlobals: module-level error variables assigned exactly once, in a package initialiser, from errors.New or fmt.Errorf.
+func (a *Analysis) nonNilErrGlobals() map[*ssa.Global]bool {
+	a.mu.Lock()
+	defer a.mu.Unlock()
+	if a.errGlobals != nil {
+		return a.errGlobals
+	}
+	m := map[*ssa.Global]bool{}
+	count := map[*ssa.Global]int{}
+	for fn := range a.P.AllFuncs {
+		if !a.P.InModule(fn) || fn.Blocks == nil {
+			continue
+		}
+		for _, b := range fn.Blocks {
+			for _, in := range b.Instrs {
+				st, ok := in.(*ssa.Store)
+				if !ok {
+					continue
+				}
+				g, ok := st.Addr.(*ssa.Global)
+				if !ok || !isErrorType(g.Type().(*types.Pointer).Elem()) {
+					continue
+				}
+				count[g]++
+				good := false
+				if call, ok := st.Val.(*ssa.Call); ok && isInitFunc(fn) {
+					if c := call.Call.StaticCallee(); c != nil {
+						n := fullName(c)
+						good = n == "errors.New" || n == "fmt.Errorf"
+					}
+				}
+				if good && count[g] == 1 {
+					m[g] = true
+				} else {
+					m[g] = false
+				}
+			}
+		}
+	}
+	for g, c := range count {
+		if c != 1 {
+			m[g] = false
+		}
+	}
+	a.errGlobals = m
+	return m
 }
